@@ -24,7 +24,7 @@ RULE = ('case = (1-5 initial voters of 8 possible, configuration, step list <=22
 ASSUMPTIONS = ['operator discipline: removed node shut down when the removal commits; added node starts empty with the current member list',
                'no node loses its memory; in particular the address of a removed node is reused by a fresh process only after every running node has dropped it from its member set']
 
-EXTRA = [('addnode', 7), ('remnode', 6)]
+EXTRA = [('addnode', 7), ('remnode', 6), ('specsnap', 2)]
 OWN = {'C10': None, 'C01': None, 'C03': None, 'C04': {'commit-index-decreased', 'committed-entry-differs', 'commit-without-majority', 'applied-index-decreased', 'log-matching-broken'}}
 
 
@@ -128,6 +128,76 @@ class DynSim(cluster.Sim):
         target = self.pick(members, b)
         return self._request(req, 'rem', target, c)
 
+    def op_specsnap(self, a, b, c):
+        """Macro step: a follower is cut off and misses entries; the leader, cut off from everybody, accepts a
+        membership change (uncommitted), compacts its log and brings the laggard up to date with a snapshot;
+        then (c even) the rest deposes the leader so that the change is truncated, or (c odd) everything heals."""
+        voters = [v for v in self.voters if v in self.nodes]
+        if len(voters) < 3:
+            return False
+        leaders = lambda grp: [v for v in grp if v in self.nodes and self.nodes[v]._isLeader()]
+        if len(leaders(voters)) != 1:
+            self.blocked = set()
+            if not self.rounds_until(lambda: len(leaders(voters)) == 1, 200):
+                return False
+        L = leaders(voters)[0]
+        others = [v for v in voters if v != L and v in self.view_members(L)]
+        if len(others) < 2:
+            return False
+        lag = others[a % len(others)]
+        self.set_partition({lag})
+        for _ in range(2):
+            self.submit(L, self.payload(1, self.next_cid))
+            for _ in range(3):
+                self.calm_round()
+                self.check(light=True)
+        if self.viol or L not in self.nodes or not self.nodes[L]._isLeader():
+            return (L, lag, 'leader-lost')
+        self.set_partition({L})
+        live = self.live()
+        if b % 2 == 0:
+            r = self.op_addnode(live.index(L), b // 2, c // 2)
+        else:
+            r = self.op_remnode(live.index(L), b // 2, c // 2)
+        self.tick_node(L, 0.02)
+        self.check(light=True)
+        self.nodes[L].forceLogCompaction()
+        self.tick_node(L, 0.02)
+        self.check(light=True)       # between the ticks: commits must be seen while the entries are still in the log
+        self.tick_node(L, 0.02)
+        self.check(light=True)
+        if lag not in self.nodes or L not in self.nodes:
+            return (L, lag, r, 'gone')
+        names = self.voters + self.ro
+        self.blocked = set(frozenset((x, y)) for x in names for y in names if x < y and {x, y} != {L, lag})
+        target = self.nodes[L].raftLastApplied
+        for _ in range(60):
+            self.heal_links()
+            self.tick_node(L, 0.02)
+            self.tick_node(lag, 0.001)
+            for g, to in self._deliverables():
+                while self.nodes[lag].raftLastApplied < target and self.net.deliver(g, to):
+                    pass
+            self.check(light=True)
+            if self.viol or self.nodes[lag].raftLastApplied >= target:
+                break
+        if c % 2 == 0:
+            self.set_partition({L})
+            rest = [v for v in voters if v != L]
+            if self.rounds_until(lambda: len(leaders(rest)) == 1, 300) and not self.viol:
+                self.submit(leaders(rest)[0], self.payload(1, self.next_cid))
+                for _ in range(5):
+                    self.calm_round()
+                    self.check(light=True)
+        self.blocked = set()
+        for _ in range(30):
+            self.calm_round()
+            self.check(light=True)
+            if self.viol:
+                break
+        self.counters['specsnap_completed'] += 1
+        return (L, lag, r, c % 2)
+
     def _request(self, req, kind, target, c):
         obj = self.nodes[req]
         if self.uncommitted_changes() >= 1:
@@ -186,10 +256,19 @@ def install_monitors(sim):
                 continue
             last = log[-1][1]
             prev = sim.prev_last.get((name, sim.incarnation[name]), 1)
-            # member set == fold of the membership commands in the log (only while the log is complete)
+            # member set == fold of the membership commands in the log; for a compacted log the part below the log
+            # start is the fold of the committed commands (ghost table G; skipped if G has a hole there)
+            base = None
             if log[0][1] == 1:
+                base = sim.ctor_members[name]
+            elif all(p in sim.G for p in range(2, log[0][1])):
+                init = set('n%d' % i for i in range(sim.cfg['n']))
+                below = [m for m in (membership_of(sim.G[p][0]) for p in range(2, log[0][1])) if m is not None]
+                base = fold_members(sim, init, below, name) | {name}
+                sim.counters['fold_checked_on_compacted_log'] += 1
+            if base is not None:
                 cmds = [m for m in (membership_of(e[0]) for e in log[:]) if m is not None]
-                want = fold_members(sim, sim.ctor_members[name], cmds, name)
+                want = fold_members(sim, base, cmds, name)
                 have = sim.view_members(name)
                 if want != have:
                     # known behaviour: committed membership entries are executed again at apply time; a node that a
@@ -198,7 +277,7 @@ def install_monitors(sim):
                     again = fold_members(sim, want, applied_cmds, name)
                     sig = 'member-set-differs-from-log' + (':entry-re-executed-at-apply' if again == have and applied_cmds else '')
                     sim.V('C10', sig, '%s holds member set %r, the membership commands in its log %r over its constructor set %r give %r' % (
-                        name, sorted(have), cmds, sorted(sim.ctor_members[name]), sorted(want)))
+                        name, sorted(have), cmds, sorted(base), sorted(want)))
             # leader-side gate
             if obj._isLeader() and last > prev:
                 term = obj.raftCurrentTerm
@@ -277,6 +356,10 @@ def run_case(case):
             classes.add('leader-change-during-change')
         if sim.counters.get('removed_node_shut_down'):
             classes.add('node-removed')
+        if sim.counters.get('specsnap_completed'):
+            classes.add('snapshot-with-uncommitted-change')
+        if sim.counters.get('fold_checked_on_compacted_log'):
+            classes.add('fold-checked-on-compacted-log')
         nontrivial = sim.overlap_requests >= 2 or sim.leader_change_during_change
         res = simprop.result_for(PROP, sim, resolved, nontrivial, classes)
         res.violation = None
